@@ -335,21 +335,36 @@ func ruleEpcUpkeep(c *Ctx) {
 		if !ok {
 			continue
 		}
+		// the events of the branch in execution order, looking into unexported functions of the package it calls:
+		// upgrade, load of the sync committees (from what?), installation of the post-state
 		var up, load, store token.Pos
 		var loadArgOK bool
-		ast.Inspect(ifs.Body, func(n ast.Node) bool {
-			switch x := n.(type) {
-			case *ast.CallExpr:
-				if f := calleeFunc(info, x); f != nil {
-					if f.Name() == "UpgradeToAltair" {
-						up = x.Pos()
+		seq := token.Pos(0)
+		var walkEv func(root ast.Node, scope ast.Node, depth int)
+		walkEv = func(root ast.Node, scope ast.Node, depth int) {
+			ast.Inspect(root, func(n ast.Node) bool {
+				switch x := n.(type) {
+				case *ast.FuncLit:
+					return false
+				case *ast.CallExpr:
+					f := calleeFunc(info, x)
+					if f == nil {
+						return true
 					}
-					if f.Name() == "LoadSyncCommittees" {
-						load = x.Pos()
+					// arguments are evaluated first
+					for _, a := range x.Args {
+						walkEv(a, scope, depth)
+					}
+					seq++
+					switch {
+					case f.Name() == "UpgradeToAltair":
+						up = seq
+					case f.Name() == "LoadSyncCommittees":
+						load = seq
 						if len(x.Args) == 1 {
 							// the argument is the variable that received UpgradeToAltair's result
 							if id, ok := ast.Unparen(x.Args[0]).(*ast.Ident); ok {
-								ast.Inspect(ifs.Body, func(k ast.Node) bool {
+								ast.Inspect(scope, func(k ast.Node) bool {
 									if as, ok := k.(*ast.AssignStmt); ok && len(as.Rhs) == 1 && len(as.Lhs) >= 1 {
 										if cl, ok := ast.Unparen(as.Rhs[0]).(*ast.CallExpr); ok {
 											if g := calleeFunc(info, cl); g != nil && g.Name() == "UpgradeToAltair" {
@@ -363,17 +378,30 @@ func ruleEpcUpkeep(c *Ctx) {
 								})
 							}
 						}
+					case !f.Exported() && f.Pkg() == pk.Types && depth < 2:
+						c.P.funcDecls(func(p2 *packages.Package, f2 *ast.FuncDecl) {
+							if p2 == pk && f2.Body != nil && p2.TypesInfo.Defs[f2.Name] == f {
+								walkEv(f2.Body, f2.Body, depth+1)
+							}
+						})
 					}
-				}
-			case *ast.AssignStmt:
-				for _, l := range x.Lhs {
-					if sel, ok := ast.Unparen(l).(*ast.SelectorExpr); ok && sel.Sel.Name == "BeaconState" {
-						store = x.Pos()
+					return false
+				case *ast.AssignStmt:
+					for _, r := range x.Rhs {
+						walkEv(r, scope, depth)
 					}
+					for _, l := range x.Lhs {
+						if sel, ok := ast.Unparen(l).(*ast.SelectorExpr); ok && sel.Sel.Name == "BeaconState" {
+							seq++
+							store = seq
+						}
+					}
+					return false
 				}
-			}
-			return true
-		})
+				return true
+			})
+		}
+		walkEv(ifs.Body, ifs.Body, 0)
 		if up == token.NoPos {
 			continue
 		}
@@ -383,11 +411,11 @@ func ruleEpcUpkeep(c *Ctx) {
 		case load == token.NoPos:
 			c.bad(key, ifs.Pos(), "the altair upgrade installs the post-state without loading its sync committees into the epochs context (CurrentSyncCommittee stays nil; the first sync aggregate fails)")
 		case !loadArgOK:
-			c.bad(key, load, "sync committees are loaded from something other than the upgraded state")
+			c.bad(key, ifs.Pos(), "sync committees are loaded from something other than the upgraded state")
 		case !(up < load && load < store):
-			c.bad(key, load, "sync committees must be loaded after UpgradeToAltair and before the post-state is installed")
+			c.bad(key, ifs.Pos(), "sync committees must be loaded after UpgradeToAltair and before the post-state is installed")
 		default:
-			c.ok(key, load, "UpgradeToAltair -> LoadSyncCommittees(post) -> install")
+			c.ok(key, ifs.Pos(), "UpgradeToAltair -> LoadSyncCommittees(post) -> install")
 		}
 	}
 	if !found {
@@ -799,11 +827,14 @@ func ruleGenesisInit(c *Ctx) {
 		var procCall *ast.CallExpr
 		ast.Inspect(depLoop.Body, func(n ast.Node) bool {
 			if call, ok := n.(*ast.CallExpr); ok {
+				// the "refresh eth1_data.deposit_root" step: whatever stores the eth1 data — directly, through a local
+				// closure or through a function of the package
+				if upd == token.NoPos && reachesCallNamed(c.P, pk, fd, call, "SetEth1Data", 0) {
+					upd = call.Pos()
+				}
 				switch calleeLabel(info, call) {
 				case "Append":
 					app = call.Pos()
-				case "updateDepTreeRoot":
-					upd = call.Pos()
 				case "ProcessDeposit":
 					proc = call.Pos()
 					procCall = call
@@ -1072,4 +1103,52 @@ func ruleAssertReach(c *Ctx) {
 		})
 	})
 	c.stat("assertion_call_paths", n)
+}
+
+// reachesCallNamed: the call is a call of `name`, or of a local closure / a function of the same package whose body
+// makes such a call (two levels).
+func reachesCallNamed(p *Prog, pk *packages.Package, fd *ast.FuncDecl, call *ast.CallExpr, name string, depth int) bool {
+	info := pk.TypesInfo
+	if f := calleeFunc(info, call); f != nil {
+		if f.Name() == name {
+			return true
+		}
+		if depth >= 2 || f.Pkg() != pk.Types {
+			return false
+		}
+		var body *ast.BlockStmt
+		var hfd *ast.FuncDecl
+		p.funcDecls(func(p2 *packages.Package, f2 *ast.FuncDecl) {
+			if p2 == pk && p2.TypesInfo.Defs[f2.Name] == f {
+				body, hfd = f2.Body, f2
+			}
+		})
+		if body == nil {
+			return false
+		}
+		found := false
+		ast.Inspect(body, func(n ast.Node) bool {
+			if c2, ok := n.(*ast.CallExpr); ok && !found && reachesCallNamed(p, pk, hfd, c2, name, depth+1) {
+				found = true
+			}
+			return !found
+		})
+		return found
+	}
+	// a closure held in a local
+	if id, ok := ast.Unparen(call.Fun).(*ast.Ident); ok && fd != nil && fd.Body != nil && depth < 2 {
+		if d, ok := singleDefs(info, fd.Body)[info.Uses[id]]; ok && d.rhs != nil {
+			if lit, ok := ast.Unparen(d.rhs).(*ast.FuncLit); ok {
+				found := false
+				ast.Inspect(lit.Body, func(n ast.Node) bool {
+					if c2, ok := n.(*ast.CallExpr); ok && !found && reachesCallNamed(p, pk, fd, c2, name, depth+1) {
+						found = true
+					}
+					return !found
+				})
+				return found
+			}
+		}
+	}
+	return false
 }
